@@ -21,7 +21,7 @@ def run(tier, seed):
         pv = g.params_values(small=True)
         p["obs"] = [{"obs": "struct"}, {"obs": "initpop", "params": pv},
                     {"obs": "oracle", "name": "c12", "params": pv, "times": p["times"]}]
-    progs[0]["obs"].append({"obs": "oracle", "name": "c12_dates", "seed": seed, "n": 20 if tier == "quick" else 300})
+    progs.append(carrier([{"obs": "oracle", "name": "c12_dates", "seed": seed, "n": 20 if tier == "quick" else 300}]))
     # the collision probe is compared on the implementation only (the model identifies compartments
     # structurally, see DESIGN.md name hygiene)
     ex = checklib.explore(progs, keys=KEYS, obs_filter=None)
